@@ -128,6 +128,55 @@ fn keys_for<V: Fv>(seed: u64, nheavy: usize, nlight: usize, heavy: &mut Shards, 
                     light.emit(json!({"ev":"sigrt","n":V::N,"siglen":sigb.len(),"rt_equal":rt,"tag":"sig-roundtrip"}));
                 }
             }
+            // round trips of objects that have been USED (signed / verified with) before they are compared with their
+            // decoded copies, and of decoded copies that are used while the original is not: per-object state (caches)
+            // must not leak into equality or into the bytes
+            let (sk_fresh, pk_fresh) = (sk.clone(), pk.clone());
+            let msg2 = b"used before the round trip".to_vec();
+            let r = guarded(|| {
+                let mut failed: Vec<&str> = vec![];
+                let sig = V::sign(&msg2, &sk);
+                let sig_fresh = sig.clone();
+                if !V::verify(&msg2, &sig, &pk) {
+                    failed.push("verify");
+                }
+                if !V::pk_from_bytes(&V::pk_to_bytes(&pk)).map(|k| k == pk).unwrap_or(false) {
+                    failed.push("decode(encode(pk)) != pk after pk was used by verify");
+                }
+                if !V::sk_from_bytes(&V::sk_to_bytes(&sk)).map(|k| k == sk).unwrap_or(false) {
+                    failed.push("decode(encode(sk)) != sk after sk was used by sign");
+                }
+                if !V::sig_from_bytes(&V::sig_to_bytes(&sig)).map(|k| k == sig).unwrap_or(false) {
+                    failed.push("decode(encode(sig)) != sig after sig was used by verify");
+                }
+                if V::pk_to_bytes(&pk) != V::pk_to_bytes(&pk_fresh) || V::sk_to_bytes(&sk) != V::sk_to_bytes(&sk_fresh) || V::sig_to_bytes(&sig) != V::sig_to_bytes(&sig_fresh) {
+                    failed.push("bytes of a used object differ from the bytes of its unused clone");
+                }
+                match (V::pk_from_bytes(&V::pk_to_bytes(&pk_fresh)), V::sk_from_bytes(&V::sk_to_bytes(&sk_fresh)), V::sig_from_bytes(&V::sig_to_bytes(&sig_fresh))) {
+                    (Ok(pk2), Ok(sk2), Ok(sig2)) => {
+                        let s = V::sign(&msg2, &sk2);
+                        if !V::verify(&msg2, &s, &pk2) || !V::verify(&msg2, &sig2, &pk2) {
+                            failed.push("verify with decoded copies");
+                        }
+                        if pk2 != pk_fresh {
+                            failed.push("decoded pk, once used, != the original");
+                        }
+                        if sk2 != sk_fresh {
+                            failed.push("decoded sk, once used, != the original");
+                        }
+                        if sig2 != sig_fresh {
+                            failed.push("decoded sig, once used, != the original");
+                        }
+                    }
+                    _ => failed.push("decoding an honest encoding failed"),
+                }
+                failed.join("; ")
+            });
+            let (ok, detail) = match r {
+                Outcome::Ret(f) => (f.is_empty(), f),
+                Outcome::Panic(m) => (false, format!("panic: {}", m)),
+            };
+            light.emit(json!({"ev":"sigrt","n":V::N,"siglen":V::SIG_LEN,"rt_equal":ok,"tag":"roundtrip-after-use","detail":detail}));
         }
     }
     // decode chains on one thread: decode A, decode B, re-encode A; decode the same bytes twice; a key decoded after a
